@@ -190,7 +190,7 @@ def rule_rebuild(idx: ProgramIndex, rep: Report, rule: str = "C02.R", prop: str 
                 for p, why in missing:
                     via = "nothing"
                     rep.bad(rule, Finding(
-                        prop, rule, where, f"{norm(call)} [{p}]",
+                        prop, rule, where, f"rebuild {norm(call.func)}(...) does not pass [{p}]",
                         f"{where}: the rebuild `{short(call, 80)}` passes `{p}` through {via}; `{p}` is value bearing "
                         f"({why}), so the rewritten operator is built with the default and denotes a different matrix",
                         fn.loc(call)))
